@@ -7,27 +7,43 @@ TITLE = "Operands and targets are evaluated left-to-right exactly once"
 EXTRACTS = ["EvalOrder"]
 RULE = ("statements (expression statements, single/cascaded/unpacking assignments, augmented assignments) over "
         "expression trees of depth <= 4 built from every modelled node kind, all of whose leaves are logging calls "
-        "T(k)/F(k)/U(k)/D(k) (truthy / falsy logging object, plain tuple, plain dict) with distinct tags; first an "
-        "enumeration of every node kind at every child position with leaf operands (exhaustive small shapes), then "
-        "PRNG trees; distinct by source text; non-trivial = at least two leaves")
+        "T(k)/F(k)/U(k)/D(k)/K(k)/I(k) (truthy / falsy logging object, plain tuple, plain dict, extension-type object, "
+        "int) with distinct tags; first an enumeration of every node kind at every child position with leaf operands "
+        "(exhaustive small shapes), then PRNG trees; calls of C functions (cdef / cpdef functions, C methods bound to a "
+        "name or to a computed receiver, optional and C-typed parameters): every (positional count, keyword "
+        "permutation) without gap x argument kinds (all non-simple, one simple, one only taken for simple: attribute, "
+        "and/or, conditional, display, f-string; random), compiled and run, plus the front-end tie: the real "
+        "map_to_simple_call_node on every shape x every non-simple/simple pattern; optimised builtin calls and "
+        "builtin-type methods with leaf / and-or / conditional arguments (two-way); distinct by source text; "
+        "non-trivial = at least two leaves")
 EXPLANATION = ("theorems (for ANY semantics of leaf calls, primitive operations, truth tests and unpacking): for every "
                "expression of the modelled language (and/or with BoolBinopNode's jump threading, not, conditional "
                "expressions, cascaded comparisons in value and boolean context, calls/displays/subscripts/slices/"
-               "attributes/f-strings as strict n-ary nodes, method calls, min/max) in every generator context the "
+               "attributes/f-strings as strict n-ary nodes, method calls, min/max, calls of compile-time-known C "
+               "functions with positional and keyword arguments) in every generator context the "
                "temp-machine code produced by the model of the code generator runs to completion, preserves older "
                "temps and yields exactly the event trace, leaf-evaluation sequence, value and exit label "
                "(short-circuit point) of the CPython-order reference semantics, truth-testing an operand at most once; "
-               "del statements likewise; the tree as it is is refuted on four modelled deviations (min/max F18, method "
-               "lookup after arguments, in-place attribute chains, cascaded unpacking) and on the not-in fold, the "
-               "repaired variants agree on the witnesses. "
-               "partial: assignment and augmented-assignment statements (rhs first, targets left to right, let-temps) "
-               "are modelled and executed but their equality with the reference is only tested (model = compiled "
-               "module = CPython on every generated statement), not proved; two front-end rewrites (not-in fold, "
-               "re-created and/or operand) are modelled in the harness, not in Coq; the temp machine models the "
-               "ordering discipline of ExprNodes/Nodes and is tied to the compiler behaviourally only.")
-LEVEL_TEXT = ("partial: universally quantified proof of trace/value/short-circuit equality for all modelled expressions in "
-              "all generator contexts and for del statements; assignment/augmented-assignment statement wrappers and "
-              "the tie between model and compiler are covered by the three-way correspondence run only.")
+               "every statement (cascaded / unpacking assignment, augmented assignment, del) likewise, including the "
+               "final variables (C20_stmt_trace_eq); for C calls the keyword-to-position mapping "
+               "(GeneralCallNode.map_to_simple_call_node: in-order prefix, out-of-order scan, simple-argument exemption, "
+               "temps for preceding non-simple arguments, temp sorting) is modelled on call positions and proved for "
+               "every declaration and every well-formed call: the argument list is the declared binding and the "
+               "evaluation order visits every argument once and the non-simple ones in call order (C20_ccall_mapping, "
+               "C20_ccall_call_order; with the three repairs for all calls, C20_ccall_repaired_covers_all); the variant "
+               "without the sorting step is refuted; the tree as it is is refuted on the modelled deviations (min/max F18, "
+               "method lookup after arguments, in-place attribute chains, cascaded unpacking, C-call arguments taken for "
+               "simple, argument list cut after a leading temp, C-method receiver after the temps) and on the not-in "
+               "fold, the repaired variants agree on the witnesses. "
+               "partial: two front-end rewrites (not-in fold, re-created and/or operand) are modelled in the harness, "
+               "not in Coq; optimised builtin calls and inline C arguments are compared with CPython only (no model); "
+               "the temp machine models the ordering discipline of ExprNodes/Nodes and is tied to the compiler "
+               "behaviourally (compiled log = model log) and, for the C-call mapping, structurally (recorded temps / "
+               "argument lists / is_simple verdicts of the real function = extracted ccmap / bsimple).")
+LEVEL_TEXT = ("universally quantified proof of trace/value/short-circuit equality for all modelled expressions in all "
+              "generator contexts, for all statements, and of the C-call keyword mapping for all declarations and calls; "
+              "partial: builtin-call optimisations are covered by the two-way run only, the tie between model and "
+              "compiler is a correspondence run.")
 TRUSTED = ["CPython 3.12 executing the same source with the same logging runtime = property oracle",
            "the logging runtime (c20rt.py): every observable operation of a logging object appends one event",
            "gcc as a conforming C compiler"]
@@ -173,6 +189,8 @@ def r_expr(e):
         return e[1]
     if t == "none":
         return "None"
+    if t == "raw":
+        return e[1]
     if t == "ccall":
         return CC.r_ccall(e, r_expr)
     if t == "bin":
@@ -676,14 +694,14 @@ for mod, fn in spec["todo"]:
 '''
 
 
-def run_all(workdir, todo):
+def run_all(workdir, todo, script="c20_driver.py"):
     """run (module, function) pairs in a subprocess; a function that kills the process (a crash of the
     compiled code is an observed outcome) is recorded as such and the run resumes behind it"""
     results = {}
     start = 0
     crashes = 0
     while start < len(todo) and crashes < 40:
-        r = cybuild.run_script(DRIVER, workdir, {"todo": todo[start:]}, timeout=1500, name="c20_driver.py")
+        r = cybuild.run_script(DRIVER, workdir, {"todo": todo[start:]}, timeout=1500, name=script)
         begun = None
         ndone = 0
         for line in r["out"].splitlines():
@@ -712,6 +730,8 @@ def module_source(stmts, first=0, py=False, skip=()):
     L = ["# cython: language_level=3", "from c20rt import O, T, F, U, D, I, ev, LOG", ""]
     if any(CC.needs_prelude(s) for s in stmts):
         L.append(CC.PRELUDE_PY if py else CC.PRELUDE_CY)
+    if any(has_kind(s, ("raw",)) for s in stmts):
+        L.append(BI_PRELUDE_PY if py else BI_PRELUDE_CY)
     for i, s in enumerate(stmts):
         if (first + i) in skip and not py:
             continue
@@ -737,6 +757,37 @@ def build_and_run(workdir, stmts, chunk=150, jobs=6, tag="c20m", skip=()):
         names.append((name, ci, min(len(stmts), ci + chunk)))
     built = cybuild.build_many(specs, jobs=jobs)
     # a chunk the compiler rejects (or crashes on) is split until the offending statements are alone
+    # functions the compiler reports errors for (file:line:col messages) are dropped from their chunk and the
+    # chunk is rebuilt once or twice; whatever still fails is bisected
+    import re
+    failed = {}
+    for _ in range(2):
+        todo_k = []
+        for k, (so, err) in enumerate(built):
+            if err is None or "cython-error" not in str(err):
+                continue
+            name, lo, hi = names[k]
+            src = module_source(stmts[lo:hi], lo, skip=skip | set(failed))
+            starts = [(ln, int(m.group(1))) for ln, text in enumerate(src.split("\n"), 1)
+                      for m in [re.match(r"def c(\d+)\(", text)] if m]
+            hit = {}
+            for m in re.finditer(r"\.pyx:(\d+):\d+: ([^\n]*)", getattr(err, "detail", str(err))):
+                cand = [i for l, i in starts if l <= int(m.group(1))]
+                if cand:
+                    hit.setdefault(cand[-1], m.group(2)[:300])
+            if hit:
+                failed.update(hit)
+                todo_k.append(k)
+        if not todo_k:
+            break
+        nspecs = []
+        for k in todo_k:
+            name, lo, hi = names[k]
+            nspecs.append(dict(name=name, source=module_source(stmts[lo:hi], lo, skip=skip | set(failed)),
+                               workdir=workdir, cflags=["-O0"]))
+        for k, b2 in zip(todo_k, cybuild.build_many(nspecs, jobs=jobs)):
+            built[k] = b2
+    skip = skip | set(failed)
     round_no = 0
     while True:
         bad = [k for k, (so, err) in enumerate(built) if err is not None and names[k][2] - names[k][1] > 1]
@@ -766,7 +817,9 @@ def build_and_run(workdir, stmts, chunk=150, jobs=6, tag="c20m", skip=()):
         if err is None:
             todo += [[name, "c%d" % i] for i in range(lo, hi) if i not in skip]
             for i in range(lo, hi):
-                if i in skip:
+                if i in failed:
+                    impl[i] = [None, "BUILD cython-error: " + failed[i]]
+                elif i in skip:
                     impl[i] = [None, "SKIPPED"]
         else:
             for i in range(lo, hi):
@@ -879,23 +932,34 @@ def model_lines(stmts, flags, rw=None):
             for s in stmts]
 
 
-def classify(model, s, base_out):
-    """finding class of a statement = the first modelled deviation whose repair changes the model's trace"""
+def classify_all(model, items):
+    """items: [(statement, model output as is)]; finding class of a statement = the first modelled deviation
+    whose repair changes the model's trace (all variants of all statements in one model batch)"""
     flags = asis_flags()
     rw = asis_rewrites()
-    for i, name in enumerate(REWRITE_CLASSES):
-        if rw[i]:
-            rw2 = list(rw); rw2[i] = False
-            if model.batch(model_lines([s], flags, rw2))[0] != base_out:
-                return name
-    for idx, name in FLAG_CLASSES:
-        if flags[idx]:
-            continue
-        f2 = list(flags); f2[idx] = 1
-        out = model.batch(model_lines([s], f2))[0]
-        if out != base_out:
-            return name
-    return "order_differs_from_cpython"
+    lines, plan = [], []
+    for s, base_out in items:
+        var = []
+        for i, name in enumerate(REWRITE_CLASSES):
+            if rw[i]:
+                rw2 = list(rw); rw2[i] = False
+                var.append((name, len(lines))); lines += model_lines([s], flags, rw2)
+        for idx, name in FLAG_CLASSES:
+            if flags[idx]:
+                continue
+            f2 = list(flags); f2[idx] = 1
+            var.append((name, len(lines))); lines += model_lines([s], f2)
+        plan.append(var)
+    out = model.batch(lines)
+    res = []
+    for (s, base_out), var in zip(items, plan):
+        k = "order_differs_from_cpython"
+        for name, li in var:
+            if out[li] != base_out:
+                k = name
+                break
+        res.append(k)
+    return res
 
 
 def check_stmts(ctx, stmts, tag, front_modules=()):
@@ -903,8 +967,18 @@ def check_stmts(ctx, stmts, tag, front_modules=()):
     the modules build; returns the worker's result"""
     model = ctx.model("evalorder")
     flags = asis_flags()
+    import time
+    t_0 = time.time()
+    all_stmts = stmts
+    raw_idx = set(i for i, s in enumerate(all_stmts) if has_kind(s, ("raw",)))
+    dummy = ("assign", [("name", "r")], ("none",))
+    stmts = [(dummy if i in raw_idx else s) for i, s in enumerate(all_stmts)]      # model queries only
     m_asis = model.batch(model_lines(stmts, flags))
     m_ref = model.batch(["ref " + " ".join(t_stmt(s)) for s in stmts])
+    f_m = list(flags); f_m[1] = 1
+    m_mcall = model.batch(model_lines(stmts, f_m))          # variant: method looked up before the arguments
+    f_c = list(flags); f_c[4] = f_c[5] = f_c[6] = 1
+    m_ccrep = model.batch(model_lines(stmts, f_c))          # variant: C-call mapping repaired
     # C calls the model of the compiler rejects (compile error): left out of the compiled modules; the real
     # compiler front end is asked about them (one module, the error lines are attributed to the functions)
     rej = [i for i, ma in enumerate(m_asis) if ma.startswith("REJECT")]
@@ -922,14 +996,23 @@ def check_stmts(ctx, stmts, tag, front_modules=()):
     import threading
     front = {}
     def run_front():
+        t_f = time.time()
         try:
             front["res"] = CC.front_run(ctx.workdir, list(front_modules) + ([rej_name] if rej else []))
         except BaseException as e:
             front["exc"] = e
+        if os.environ.get("C20_DEBUG"):
+            print("TIMING front-end worker %.1fs" % (time.time() - t_f), file=sys.stderr)
     th = threading.Thread(target=run_front)
     th.start()
+    stmts = all_stmts
     try:
-        impl, orac = build_and_run(ctx.workdir, stmts, tag=tag, jobs=6, chunk=100, skip=rej)
+        # quick: one build phase, seven modules in parallel (the start-up of the compiler from .py sources and
+        # the C compiler run are on the critical path of every module)
+        nchunk = 100 if ctx.tier != "quick" else max(40, -(-len(stmts) // 7))
+        impl, orac = build_and_run(ctx.workdir, stmts, tag=tag, jobs=(7 if ctx.tier == "quick" else 6), chunk=nchunk, skip=rej)
+        if os.environ.get("C20_DEBUG"):
+            print("TIMING build_and_run done at %.1fs" % (time.time() - t_0), file=sys.stderr)
     finally:
         th.join()
     if "exc" in front:
@@ -940,6 +1023,8 @@ def check_stmts(ctx, stmts, tag, front_modules=()):
         lo, hi = rej_range[i]
         msgs = [m for ln, m in rej_errs if lo <= ln <= hi]
         rej_res[i] = {"ok": not msgs, "err": " / ".join(msgs)}
+    t_1 = time.time()
+    pending = []
     nskip = 0
     ncrash = []
     nalt = []
@@ -951,6 +1036,9 @@ def check_stmts(ctx, stmts, tag, front_modules=()):
             nskip += 1          # CPython itself rejects the generated statement: not a case
             continue
         has_cc = has_kind(s, ("ccall",))
+        if i in raw_idx:
+            judge_raw(ctx, s[2], a, o)
+            continue
         if i in rej_res:
             # valid for CPython, rejected by the model of the compiler: the compiler must reject it too, and
             # the repaired model must accept it with the reference order (nothing is executed: no order to
@@ -959,9 +1047,7 @@ def check_stmts(ctx, stmts, tag, front_modules=()):
             rr = rej_res[i]
             if rr["ok"] or not ("wrong number of arguments" in rr["err"] or "missing argument" in rr["err"]):
                 ctx.corr_break("model-rejects-vs-compiler", inp, rr, ma)
-            f2 = list(flags); f2[4] = f2[5] = f2[6] = 1
-            alt = parse_model(model.batch(model_lines([s], f2))[0])
-            pr = parse_model(mr)
+            alt = parse_model(m_ccrep[i])
             if alt is None or alt[1] == "REJECT":
                 ctx.corr_break("rejected-call-repaired-model", inp, alt, mr)
             nrej.append(src)
@@ -990,8 +1076,7 @@ def check_stmts(ctx, stmts, tag, front_modules=()):
         if not tie and not flags[1]:
             # PyMethodCallNode does not take the PyObject_VectorcallMethod shortcut for every method call
             # (the conditions are not modelled): accept the model variant that looks the method up first
-            f2 = list(flags); f2[1] = 1
-            alt = parse_model(model.batch(model_lines([s], f2))[0])
+            alt = parse_model(m_mcall[i])
             if alt is not None and alt[0] == a[0] and alt[1] == a[1]:
                 tie = True
                 nalt.append(src)
@@ -1002,13 +1087,19 @@ def check_stmts(ctx, stmts, tag, front_modules=()):
             ctx.corr_break("gen-model-vs-compiled", inp, a, pa[:2])
         # (3) property oracle: compiled module vs CPython
         if dedup_bool(a[0]) != dedup_bool(o[0]) or a[1] != o[1]:
-            klass = classify(model, s, ma) if tie else "order_differs_from_cpython"
-            ctx.fail(klass, inp, a, o, note="model(as is): %s" % ma[:300])
+            if tie:
+                pending.append((s, inp, a, o, ma, m_asis[i]))
+            else:
+                ctx.fail("order_differs_from_cpython", inp, a, o, note="model(as is): %s" % ma[:300])
         else:
             # (4) every leaf at most once (if the logs agree this can only fail when CPython does the same)
             lv = [e for e in a[0] if e.startswith("L") and e[1:].isdigit()]
             if len(lv) != len(set(lv)):
                 ctx.fail("leaf_evaluated_twice", inp, a, o)
+    for (s, inp, a, o, ma, base), klass in zip(pending, classify_all(model, [(p[0], p[5]) for p in pending])):
+        ctx.fail(klass, inp, a, o, note="model(as is): %s" % ma[:300])
+    if os.environ.get("C20_DEBUG"):
+        print("TIMING %s: model+build+run %.1fs, judge %.1fs (%d statements)" % (tag, t_1 - t_0, time.time() - t_1, len(stmts)), file=sys.stderr)
     if nalt:
         ctx.note("%s: %d statements whose method calls were compiled without the vectorcall-method shortcut "
                  "(model variant fx_mcall matched), e.g. %s" % (tag, len(nalt), nalt[0][:200]))
@@ -1042,22 +1133,6 @@ def tie_class(fname, npos, perm, kinds):
     if pre < len(perm) and any(kd in CC.FALSE_SIMPLE for kd in kinds) and not CCSIMPLE_FIXED:
         return "ccall_argument_taken_for_simple_before_analysis"
     return "ccall_temps_not_in_call_order"
-
-
-class Recorder(object):
-    """stands in for ctx in the side thread (own PRNG; verdict / accounting calls are replayed in the main thread)"""
-    def __init__(self, ctx, rng):
-        self.ctx, self.rng, self.tier, self.workdir, self.calls = ctx, rng, ctx.tier, ctx.workdir, []
-    def model(self, name):
-        return self.ctx.model(name)
-    def __getattr__(self, name):
-        if name in ("case", "count", "fail", "corr_break", "note"):
-            return lambda *a, **k: self.calls.append((name, a, k))
-        raise AttributeError(name)
-    def replay(self):
-        for name, a, k in self.calls:
-            getattr(self.ctx, name)(*a, **k)
-        self.calls = []
 
 
 GAPS = [("co", "co(T(1), c=T(2))", "ccmap 1 0 1 4 2 0", "none"), ("co", "co(T(1), d=T(2), b=T(3))", "ccmap 1 0 1 4 3,1 00", "none"),
@@ -1268,59 +1343,53 @@ def fill(g, tmpl, rich):
     return out
 
 
-def check_builtins(ctx):
-    quick = ctx.tier == "quick"
-    g = Gen(ctx.rng)
+def builtin_statements(g, quick):
+    """r = <builtin call>: ('raw', source, template name); quick: one filling per template (plain and rich
+    alternate), thorough: the plain one and six rich ones"""
     cases = []
-    for tmpl, name in BUILTINS + BUILTINS_INLINE:
-        g.k = 0
-        cases.append((fill(g, tmpl, False), name))
-        for _ in range(1 if quick else 6):
+    for ti, (tmpl, name) in enumerate(BUILTINS + BUILTINS_INLINE):
+        if quick:
             g.k = 0
-            cases.append((fill(g, tmpl, True), name))
-    seen, uniq = set(), []
-    for c in cases:
-        if c[0] not in seen:
-            seen.add(c[0]); uniq.append(c)
-    cases = uniq
-    hdr = "# cython: language_level=3\nfrom c20rt import O, T, F, U, D, I, ev, LOG\n"
-    body = "".join("def c%d(x, y, z):\n    return %s\n" % (i, c[0]) for i, c in enumerate(cases))
-    os.makedirs(ctx.workdir, exist_ok=True)
-    with open(os.path.join(ctx.workdir, "c20rt.py"), "w") as f:
-        f.write(RUNTIME)
-    with open(os.path.join(ctx.workdir, "c20bi_py.py"), "w") as f:
-        f.write(hdr + BI_PRELUDE_PY + body)
-    try:
-        cybuild.build("c20bi", hdr + BI_PRELUDE_CY + body, ctx.workdir, cflags=["-O0"])
-    except cybuild.BuildError as e:
-        ctx.corr_break("builtin-module-build", {"module": "c20bi"}, str(e)[-1500:], "module builds")
-        return
-    todo = [[m, "c%d" % i] for i in range(len(cases)) for m in ("c20bi_py", "c20bi")]
-    res = run_all(ctx.workdir, todo)
-    for i, (src, name) in enumerate(cases):
-        o = res.get(("c20bi_py", "c%d" % i), [[], "EXC missing"])
-        a = res.get(("c20bi", "c%d" % i), [[], "EXC missing"])
-        if o[1].startswith("EXC"):
-            continue
-        inp = {"expr": src}
-        ctx.case("builtin/" + name, inp, sig=src)
-        same_val = (a[1] == o[1]) or (a[1].startswith("?<") and o[1].startswith("?<"))
-        if dedup_bool(a[0]) != dedup_bool(o[0]) or not same_val:
-            klass = "optimised_builtin_call_order_differs"
-            if name == "inline":
-                klass = "c_call_inline_c_argument_order_unspecified"
-            elif name in ("list.extend-mixed", "set-mixed") or (
-                    name in ("list.extend", "set") and any(tok in src for tok in (" or ", " and ", " if "))):
-                # the literal's items: calls go into LetRefNode temps, other nodes that end up in temps
-                # (operators, attribute lookups, and/or, conditional expressions) count as simple, stay in place
-                klass = "builtin_literal_item_in_temp_taken_for_simple"
-            elif name == "cfunc-int-kw" and any(tok in src for tok in (" or ", " and ", " if ")):
-                klass = "ccall_argument_taken_for_simple_before_analysis"
-            ctx.fail(klass, inp, a, o)
+            cases.append((fill(g, tmpl, ti % 2 == 1 or name in ("list.extend", "set")), name))
         else:
-            lv = [e for e in a[0] if e.startswith("L") and e[1:].isdigit()]
-            if len(lv) != len(set(lv)):
-                ctx.fail("leaf_evaluated_twice", inp, a, o)
+            g.k = 0
+            cases.append((fill(g, tmpl, False), name))
+            for _ in range(6):
+                g.k = 0
+                cases.append((fill(g, tmpl, True), name))
+    seen, out = set(), []
+    for src, name in cases:
+        if src not in seen:
+            seen.add(src)
+            out.append(("assign", [("name", "r")], ("raw", src, name)))
+    return out
+
+
+def judge_raw(ctx, e, a, o):
+    """two-way: compiled module vs CPython (the model has no builtin semantics)"""
+    src, name = e[1], e[2]
+    inp = {"expr": src}
+    ctx.case("builtin/" + name, inp, sig=src)
+    if a[0] is None:
+        ctx.corr_break("builtin-build", inp, a[1][:600], "module builds")
+        return
+    same_val = (a[1] == o[1]) or ("?<" in a[1] and "?<" in o[1])
+    if dedup_bool(a[0]) != dedup_bool(o[0]) or not same_val:
+        klass = "optimised_builtin_call_order_differs"
+        if name == "inline":
+            klass = "c_call_inline_c_argument_order_unspecified"
+        elif name in ("list.extend-mixed", "set-mixed") or (
+                name in ("list.extend", "set") and any(tok in src for tok in (" or ", " and ", " if "))):
+            # the literal's items: calls go into LetRefNode temps, other nodes that end up in temps
+            # (operators, attribute lookups, and/or, conditional expressions) count as simple, stay in place
+            klass = "builtin_literal_item_in_temp_taken_for_simple"
+        elif name == "cfunc-int-kw" and any(tok in src for tok in (" or ", " and ", " if ")):
+            klass = "ccall_argument_taken_for_simple_before_analysis"
+        ctx.fail(klass, inp, a, o)
+    else:
+        lv = [x for x in a[0] if x.startswith("L") and x[1:].isdigit()]
+        if len(lv) != len(set(lv)):
+            ctx.fail("leaf_evaluated_twice", inp, a, o)
 
 
 def gen_random(rng, count, depth):
@@ -1357,30 +1426,16 @@ def run(ctx):
     nrand = 75 if quick else 2000
     rnd = gen_random(ctx.rng, nrand // 3, 2) + gen_random(ctx.rng, nrand // 3, 3) + gen_random(ctx.rng, nrand - 2 * (nrand // 3), 4)
     prep = prepare_ccmap(ctx)
-    # the builtin module builds and runs in a side thread (own PRNG, verdict calls replayed afterwards)
-    import threading, random
-    side_err = []
-    rec = Recorder(ctx, random.Random(ctx.rng.getrandbits(64)))
-    def side():
-        try:
-            check_builtins(rec)
-        except BaseException as e:     # re-raised in the main thread
-            side_err.append(e)
-    th = threading.Thread(target=side)
-    th.start()
-    try:
-        if quick:
-            # one build phase (every compiler process pays the start-up of the compiler from .py sources)
-            real = check_stmts(ctx, small + rnd, "c20q", front_modules=prep["modules"])
-        else:
-            real = check_stmts(ctx, small, "c20e", front_modules=prep["modules"])
-            check_stmts(ctx, rnd, "c20r")
-    finally:
-        th.join()
+    # optimised builtin calls, builtin-type methods, inline C arguments: two-way statements in the same modules
+    gbi = Gen(ctx.rng)
+    bi = builtin_statements(gbi, quick)
+    if quick:
+        # one build phase (every compiler process pays the start-up of the compiler from .py sources)
+        real = check_stmts(ctx, small + bi + rnd, "c20q", front_modules=prep["modules"])
+    else:
+        real = check_stmts(ctx, small + bi, "c20e", front_modules=prep["modules"])
+        check_stmts(ctx, rnd, "c20r")
     judge_ccmap(ctx, prep, real)
-    rec.replay()
-    if side_err:
-        raise side_err[0]
     if os.environ.get("C20_DEBUG"):
         from collections import Counter
         print("FAIL CLASSES", Counter(f["class"] for f in ctx.prop_failures), file=sys.stderr)
@@ -1398,6 +1453,25 @@ def run(ctx):
 def replay(ctx, obj):
     def tup(x):
         return tuple(tup(y) for y in x) if isinstance(x, list) else x
+    if "ast" not in obj["input"]:
+        # front-end tie case ({"call": ...}) or builtin call ({"expr": ...}): compile the expression alone
+        src = obj["input"].get("call") or obj["input"].get("expr")
+        print("expression:", src)
+        hdr = "# cython: language_level=3\nfrom c20rt import O, T, F, U, D, I, ev, LOG\n"
+        body = "def c0(x, y, z):\n    return %s\n" % src
+        os.makedirs(ctx.workdir, exist_ok=True)
+        with open(os.path.join(ctx.workdir, "c20rt.py"), "w") as f:
+            f.write(RUNTIME)
+        with open(os.path.join(ctx.workdir, "c20rp_py.py"), "w") as f:
+            f.write(hdr + CC.PRELUDE_PY + BI_PRELUDE_PY + body)
+        try:
+            cybuild.build("c20rp", hdr + CC.PRELUDE_CY + BI_PRELUDE_CY + body, ctx.workdir, cflags=["-O0"])
+            res = run_all(ctx.workdir, [["c20rp_py", "c0"], ["c20rp", "c0"]])
+            print("compiled :", res.get(("c20rp", "c0")))
+            print("CPython  :", res.get(("c20rp_py", "c0")))
+        except cybuild.BuildError as e:
+            print("compiler :", str(e)[-600:])
+        return
     s = tup(obj["input"]["ast"])
     # lists inside the AST (argument lists, operator lists) were tuples-of-lists originally: re-list them
     def fix(x):
